@@ -63,6 +63,14 @@ CHECKS = {
             "bounded: <= 5 nodes / 4 operations exhaustive in TLC (6/5 thorough), histories of 3 operations from 4 seed forests "
             "replayed exhaustively, simulated depth 7; slice nodes are views and exempt from the parent-link clause",
             "TLA+ model (TLC exhaustive + simulation) + behaviours replayed into real trees + TLC trace validation of recorded heaps"),
+    "C13": ("model_checking",
+            "Feeding.tla (TLC) enumerates every composition of an input of n <= 7 units into fragments; the real IterativeParser is "
+            "driven along every schedule for every in-class word of the Lang.tla-enumerated corpus (text incl. non-ASCII, bytes, "
+            "16-bit fields): complete parses after the last fragment must equal those of the whole-input schedule and "
+            "can_continue() must hold on every proper prefix of a word of the language",
+            "bounded: words <= 6 / 7 units, all 2^(n-1) schedules; words outside the maximal-munch class only as pinned witnesses "
+            "(finding F18); chart-level conformance (Earley.tla) is not part of this check",
+            "TLC-enumerated feeding schedules and TLC-enumerated languages replayed into the real incremental parser"),
 }
 
 NOT_YET = "check not built yet in this round (work in progress, see DESIGN.md section 8); not claimed"
